@@ -26,7 +26,7 @@ ASSUMPTIONS = [
     "a rejected write still counts as 'written' for the user/once clauses; C16.continue compares against a second run without rejections",
 ]
 PROBES = ["override.value", "override.disabled", "override.nondefault_setting", "override.disable_nondefault", "current.unreadable", "current.above_default",
-          "rejected_write", "rejected_value_write", "reject_status.INVALID_CALL", "reject_status.NO_BUFFERS", "reject_status.BAD_ARGUMENT", "reject_status.INVALID_ID", "buffer_count_written", "version_gt_14", "schema_default_injected"]
+          "rejected_write", "rejected_value_write", "response_later_than_command_timeout", "write_config_failed_on_slow_response", "reject_status.INVALID_CALL", "reject_status.NO_BUFFERS", "reject_status.BAD_ARGUMENT", "reject_status.INVALID_ID", "buffer_count_written", "version_gt_14", "schema_default_injected"]
 
 VERSIONS = list(range(4, 17))
 LEVELS = ("unreadable", 0, 11, 12, 13, 200)
@@ -69,6 +69,8 @@ def plan(tier):
                 sweeps.append(("grid", {"V": V, "level": lvl, "names": names[i:i + 8], "step": step, "sched": False}))
         for st0 in (0, 2):
             sweeps.append(("rejects", {"V": V, "st0": st0, "sched": False}))
+        for k in range(4):
+            sweeps.append(("slow", {"V": V, "k": k, "sched": False}))
     return {
         "sweeps": sweeps,
         "exhaustive": "every written setting rejected in turn with each of four rejection statuses; versions 4..16 x uniform current value {unreadable, 0, 11, 12, 13, 200} x {no override; every single-setting override: disabled, and each schema-valid candidate value (every third one in quick)}",
@@ -106,6 +108,53 @@ def run(scenario, params, tape, detail=False):
 
     last = {}
     REJ = ("INVALID_CALL", "NO_BUFFERS", "BAD_ARGUMENT", "INVALID_ID")  # EzspStatus ERROR_INVALID_CALL / OUT_OF_MEMORY / INVALID_VALUE / INVALID_ID
+
+    slow = {"ids": set(), "cmds": ()}
+
+    def deliver(req, payload):
+        # a setting whose response is slower than the 10 s command timeout (the NCP applied it; resizing tables takes its time)
+        d = 0.0
+        if req.name in slow["cmds"] and slow["ids"]:
+            a = req.args or {}
+            cid = a.get("configId", a.get("valueId"))
+            if cid is not None and int(cid) in slow["ids"]:
+                d = 10.5
+                probe("response_later_than_command_timeout")
+        req.nrsp += 1
+        ncp.emit(payload, d, "rsp", req.seq)
+
+    ncp.deliver = deliver
+
+    async def one_slow(ez, current, i, cmds, label):
+        """the response to one command about setting i arrives after the command timeout: the write may fail, but no setting is sent twice"""
+        nev[0] += 1
+        ncp.config.clear()
+        ncp.values.clear()
+        ncp.write_log.clear()
+        ncp.config_writes.clear()
+        ncp.config_default = dict(current)
+        ncp.config_unreadable = set()
+        ncp.config_reject = set()
+        ncp.value_reject = set()
+        slow["ids"], slow["cmds"] = {i}, cmds
+        raised = None
+        try:
+            await ez.write_config({})
+        except Exception as e:  # noqa: BLE001
+            raised = e
+        slow["ids"] = set()
+        import asyncio
+
+        await asyncio.sleep(11.0)  # let the late response arrive before the next evaluation
+        cfg = [(j, v) for (k, j, v, st) in ncp.write_log if k == "config"]
+        ids = [j for (j, v) in cfg]
+        dup = sorted({j for j in ids if ids.count(j) > 1})
+        if dup:
+            viol.append(("C16.once", "twice-after-slow-response", f"v{V} {label}: the response to {'/'.join(cmds)} for {name_of.get(i, i)} took 10.5 s (applied by the NCP); "
+                         f"settings {[name_of.get(j, j) for j in dup]} were written more than once: {cfg} (write_config {'raised ' + repr(raised) if raised else 'returned'})"))
+        if raised is not None:
+            probe("write_config_failed_on_slow_response")
+        sigs.add(hashlib.blake2b(repr((V, "slow", i, cmds)).encode(), digest_size=8).digest())
 
     async def one(ez, current, overrides, reject, label, vreject=()):
         """current: {id: value|'unreadable'}; overrides: {name: value|None}; reject: set of ids"""
@@ -215,6 +264,13 @@ def run(scenario, params, tape, detail=False):
                 vals = valid_values(V, n)
                 for v in vals[:: params.get("step", 1)]:
                     await one(ez, current, {n: v}, set(), f"current={lvl}")
+        elif scenario == "slow":
+            current = {int(e): 1 for e in t.EzspConfigId}
+            await one(ez, current, {}, set(), "baseline")
+            ids = [i for (i, v, st_) in last["cfg"]]
+            for i in ids[params["k"]::4]:
+                await one_slow(ez, current, i, ("setConfigurationValue",), "slow write")
+                await one_slow(ez, current, i, ("getConfigurationValue",), "slow read")
         elif scenario == "rejects":
             # every written setting rejected in turn, with every rejection status: the remaining ones are written all the same
             current = {int(e): 1 for e in t.EzspConfigId}
